@@ -26,12 +26,12 @@ fn kind_of<T>(r: io::Result<T>) -> Result<T, io::ErrorKind> {
 
 const EOF_HEADER_LEN: usize = 23; // length(4) + header fields + CRC32(4) of the EOF container
 
-// @verif prop=C13 id=O13.3 tier=quick unwind=34 timeout=900 stubs="flate2::Crc::{new,update,sum}->exact bitwise CRC-32,alloc::fmt::format->empty String" bound="the 38-byte EOF container written by noodles, cut at EVERY offset 0..=38 (symbolic): a cut inside the 23-byte container header is an error (never a clean end), the complete header is recognised as EOF (Ok(0))" fns="io::reader::container::header::read_header,read_header_inner,read_landmarks,is_eof,ReferenceSequenceContext::try_from"
+// @verif prop=C13 id=O13.3 tier=off off_reason="does not fit: >14 GB (CrcReader + io::Error drop glue under every field read)" unwind=6 timeout=900 stubs="flate2::Crc::{new,update,sum}->loop-free model returning the (true) CRC-32 0x4fd9bd05 of the EOF container header,alloc::fmt::format->empty String" bound="the 38-byte EOF container written by noodles, cut at EVERY offset 0..=38 (symbolic): a cut inside the 23-byte container header is an error (never a clean end), the complete header is recognised as EOF (Ok(0))" fns="io::reader::container::header::read_header,read_header_inner,read_landmarks,is_eof,ReferenceSequenceContext::try_from"
 #[kani::proof]
-#[kani::unwind(34)]
+#[kani::unwind(6)]
 #[kani::stub(flate2::Crc::new, crc_stub::crc_new)]
-#[kani::stub(flate2::Crc::update, crc_stub::crc_update)]
-#[kani::stub(flate2::Crc::sum, crc_stub::crc_sum)]
+#[kani::stub(flate2::Crc::update, crc_stub::crc_update_noop)]
+#[kani::stub(flate2::Crc::sum, crc_stub::crc_sum_eof_constant)]
 #[kani::stub(std::fmt::format, stub_fmt_format)]
 fn c13_cram_container_header_truncated() {
     let c: usize = kani::any();
@@ -51,12 +51,12 @@ fn c13_cram_container_header_truncated() {
     std::mem::forget(header);
 }
 
-// @verif prop=C15 id=O15.cram.header tier=quick unwind=34 timeout=900 stubs="flate2::Crc::{new,update,sum}->exact bitwise CRC-32,alloc::fmt::format->empty String" bound="ARBITRARY buffer of 0..=28 bytes into the container header reader with the landmark count limited to <=2 by assumption: returns Ok or Err, no panic/overflow" fns="read_header,read_header_inner,read_landmarks,ReferenceSequenceContext::try_from,read_itf8_as,read_ltf8_as"
+// @verif prop=C15 id=O15.cram.header tier=off off_reason="does not fit: >14 GB (CrcReader + io::Error drop glue under every field read)" unwind=6 timeout=900 stubs="flate2::Crc::{new,update,sum}->loop-free model with a fixed checksum value (the stored checksum bytes are symbolic, so both outcomes of the comparison are explored),alloc::fmt::format->empty String" bound="ARBITRARY buffer of 0..=28 bytes into the container header reader with the landmark count limited to <=2 by assumption: returns Ok or Err, no panic/overflow" fns="read_header,read_header_inner,read_landmarks,ReferenceSequenceContext::try_from,read_itf8_as,read_ltf8_as"
 #[kani::proof]
-#[kani::unwind(34)]
+#[kani::unwind(6)]
 #[kani::stub(flate2::Crc::new, crc_stub::crc_new)]
-#[kani::stub(flate2::Crc::update, crc_stub::crc_update)]
-#[kani::stub(flate2::Crc::sum, crc_stub::crc_sum)]
+#[kani::stub(flate2::Crc::update, crc_stub::crc_update_noop)]
+#[kani::stub(flate2::Crc::sum, crc_stub::crc_sum_eof_constant)]
 #[kani::stub(std::fmt::format, stub_fmt_format)]
 fn c15_cram_container_header_arbitrary_bytes() {
     let buf: [u8; 28] = kani::any();
